@@ -199,6 +199,8 @@ def do_comp(ex, node, st, kind):
             d = d.val
         if isinstance(d, VDict):
             dv = (d, it.func.attr)
+    if dv is None and isinstance(it, ast.Call) and isinstance(it.func, ast.Name) and it.func.id == "zip" and "zip" not in st.env:
+        return zip_map(ex, node, g, st, kind)
     if dv is None:
         src = _src(ex, g, st)
         if isinstance(src, VSet):
@@ -321,6 +323,36 @@ def do_comp(ex, node, st, kind):
         v = GenDesc(src, i, body, rng)
         return v
     return materialise(ex, st, GenDesc(src, i, body, rng), "list")
+
+
+def zip_map(ex, node, g, st, kind):
+    """[f(x, y) for x, y in zip(A, B)] over two sequences: a list of length min(len(A), len(B)) whose i-th element is f(A[i], B[i])"""
+    it = g.iter
+    if kind != "list" or g.ifs or len(it.args) != 2 or it.keywords:
+        raise OutOfReach("zip comprehension shape")
+    a, b = ex.eval(it.args[0], st), ex.eval(it.args[1], st)
+    if not (isinstance(a, VSeq) and isinstance(b, VSeq)):
+        raise OutOfReach("zip of non-sequences")
+    La, Lb = z3.Length(a.term), z3.Length(b.term)
+    L = z3.If(La <= Lb, La, Lb)
+    i = z3.Int(S.fresh_name("zi"))
+    s2 = State(dict(st.env), st.pc + [i >= 0, i < L], st.facts)
+    ex.store(g.target, VTup([S.wrap(a.elem, a.term[i]), S.wrap(b.elem, b.term[i])]), s2)
+    saved = list(ex.guards)
+    ex.guards = ex.guards + [i >= 0, i < L]
+    try:
+        body = ex.eval(node.elt, s2)
+    finally:
+        ex.guards = saved
+    es = S.sort_of(body)
+    if isinstance(es, (S.Tup, S.Opt, S.Obj, S.Dict)):
+        raise OutOfReach("zip comprehension with structured elements")
+    r = z3.Const(S.fresh_name("zmap"), z3.SeqSort(es.z3()))
+    st.facts.append(z3.Length(r) == L)
+    fb = z3.Implies(z3.And(i >= 0, i < L), r[i] == ex.term_of(body, es))
+    st.facts.append(z3.ForAll([i], fb, patterns=[r[i]]))
+    ex.ctx.elementwise.append((i, fb))
+    return VSeq(r, es, "list")
 
 
 class BoolFold(S.V):
